@@ -421,7 +421,8 @@ class Interp(InterpBase, ExprMixin, AttrMixin, CallMixin, StmtMixin, CompMixin):
             return self.execute_sub()
         f = self.func
         env, selfv = self.root_env()
-        fr = Frame(f, env, selfv, f.cls or getattr(f, "owner_cls", None), f.module)
+        decos = self.repo_decorators(f) if self.closure_env is None else []
+        fr = Frame(None if decos else f, env, selfv, f.cls or getattr(f, "owner_cls", None), f.module)
         if self.closure_env is not None:
             outer = Frame(f.outer, self.closure_env, None, None, f.module)
             outer.closure_env = None
@@ -431,8 +432,19 @@ class Interp(InterpBase, ExprMixin, AttrMixin, CallMixin, StmtMixin, CompMixin):
         self.frames.append(fr)
         try:
             try:
-                self.exec_block(f.node.body)
-                term = ("return", NONE)
+                if decos:
+                    # the entry point is wrapped by a decorator of the package: what a caller runs is the wrapper
+                    fv = V(("fn", f.qual, "raw"), [("fn", f.qual)])
+                    for dfn in reversed(decos):
+                        fv = self.call_function(dfn, None, [fv], {}, f.node, None)
+                    names = [a.arg for a in f.node.args.args]
+                    if selfv is not None and names:
+                        names = names[1:]
+                    r_ = self.call_value(fv, ([selfv] if selfv is not None else []) + [env[n] for n in names if n in env], {}, f.node)
+                    term = ("return", r_)
+                else:
+                    self.exec_block(f.node.body)
+                    term = ("return", NONE)
             except _Return as r:
                 term = ("return", r.v)
             except _Raise as r:
